@@ -108,12 +108,33 @@ def gen_cases(tier, seed):
     return cases
 
 
-def labelled(shape, dtype=np.complex128):
+def labelled(shape, dtype=np.complex128, layout="C"):
     n = dense.prod(shape)
     v = np.arange(1, n + 1, dtype=np.float64)
     if np.issubdtype(dtype, np.complexfloating):
         v = v + 1j * (0.5 * v + 0.25)
-    return v.astype(dtype).reshape(shape)
+    a = v.astype(dtype).reshape(shape)
+    if layout == "F":
+        a = np.asfortranarray(a)
+    elif layout == "S":
+        big = np.zeros([2 * k for k in shape], dtype=dtype)
+        sl = tuple(slice(1, None, 2) for _ in shape)
+        big[sl] = a
+        a = big[sl]
+    return a
+
+
+def layouts(viol, site, when, fn, shape, ref):
+    """The same values in Fortran order and as a strided view must be moved to the same places."""
+    for lay in ("F", "S"):
+        x = labelled(shape, np.complex128, lay)
+        x0 = x.copy()
+        got = np.asarray(fn(x))
+        if list(got.shape) != list(ref.shape) or not np.array_equal(got, ref):
+            viol.append(dict(oracle="layout-invariance", key=dict(site=site, when=when),
+                             detail="%s input: result differs from the C-contiguous result" % ("Fortran-ordered" if lay == "F" else "strided")))
+        if not np.array_equal(x, x0):
+            viol.append(dict(oracle="input-mutated", key=dict(site=site, when=when), detail="%s-layout input modified" % lay))
 
 
 def _cmp(viol, site, when, got, ref, detail=""):
@@ -155,6 +176,8 @@ def run_case(case, seed):
             _cmp(viol, "util.resize", when, got, ref)
             if not np.array_equal(x, x0):
                 viol.append(dict(oracle="input-mutated", key=dict(site="util.resize", when=when), detail=""))
+        layouts(viol, "util.resize", when, lambda a: sp.resize(a, osh, ishift=si, oshift=so), ish, im.apply_src(src, labelled(ish)))
+        trans += 2
         if len(ish) == len(osh):
             A = sp.linop.Resize(osh, ish, ishift=si, oshift=so)
             x = labelled(ish)
@@ -174,6 +197,7 @@ def run_case(case, seed):
         x = labelled(s)
         ref = im.apply_src(src, x)
         _cmp(viol, "util.flip", when, sp.flip(x, ax), ref)
+        layouts(viol, "util.flip", when, lambda a: sp.flip(a, ax), s, ref)
         A = sp.linop.Flip(s, axes=ax)
         _cmp(viol, "linop.Flip", when, A(x), ref)
         _cmp(viol, "linop.Flip.H", when, A.H(ref), x)
@@ -186,6 +210,7 @@ def run_case(case, seed):
         x = labelled(s)
         ref = im.apply_src(src, x)
         _cmp(viol, "util.circshift", when, sp.circshift(x, sh, ax), ref)
+        layouts(viol, "util.circshift", when, lambda a: sp.circshift(a, sh, ax), s, ref)
         A = sp.linop.Circshift(s, sh, axes=ax)
         _cmp(viol, "linop.Circshift", when, A(x), ref)
         _cmp(viol, "linop.Circshift.H", when, A.H(ref), x)
@@ -198,7 +223,8 @@ def run_case(case, seed):
         x = labelled(s)
         ref = im.apply_src(src, x)
         _cmp(viol, "util.downsample", when, sp.downsample(x, f, shift=sft), ref)
-        trans += 1
+        layouts(viol, "util.downsample", when, lambda a: sp.downsample(a, f, shift=sft), s, ref)
+        trans += 3
         if ref.size > 0:
             A = sp.linop.Downsample(s, f, shift=sft)
             if list(A.oshape) != list(ref.shape):
@@ -235,6 +261,10 @@ def run_case(case, seed):
         ref = im.apply_src(src, x)
         got = sp.array_to_blocks(x, B, S)
         _cmp(viol, "block.array_to_blocks", when, got, ref)
+        layouts(viol, "block.array_to_blocks", when, lambda a: sp.array_to_blocks(a, B, S), ish, ref)
+        yl = labelled(list(ref.shape))
+        layouts(viol, "block.blocks_to_array", when, lambda a: sp.blocks_to_array(a, ish, B, S), list(ref.shape),
+                (im.gather_matrix(src, dense.prod(ish)).T @ yl.ravel()).reshape(ish))
         if not np.array_equal(x, x0):
             viol.append(dict(oracle="input-mutated", key=dict(site="block.array_to_blocks", when=when), detail=""))
         A = sp.linop.ArrayToBlocks(ish, B, S)
